@@ -223,7 +223,8 @@ def compare(dump, impl, in_proj=None, out_proj=None):
       diffs.append("sub %d outputs: spec %s impl %s" % (si, S["outs"], O["gouts"]))
     if S["dt"] != O["dt"]:
       diffs.append("sub %d dtypes: spec %s impl %s" % (si, S["dt"], O["dt"]))
-    snames = [spec_name(si, t, nsub) for t in S["nm"]]
+    onames = (impl.get("info") or {}).get("names")
+    snames = [(onames[si][t[0]] + "".join(t[1:])) if onames else spec_name(si, t, nsub) for t in S["nm"]]
     if snames != O["names"]:
       diffs.append("sub %d names: spec %s impl %s" % (si, snames, O["names"]))
     # annotation equality: the bias term carries its buffer (data identity), the annotation does not
@@ -244,8 +245,12 @@ def g_record(scn, in_proj):
     for oi, o in enumerate(sub["ops"]):
       po = P["ops"][oi]
       ops.append({"kind": o["kind"], "ins": o["ins"], "outs": o["outs"], "sig": "%d:%s" % (po["code"], po["opts"])})
+    sig = [x for x in in_proj["sigs"] if x["sub"] == si]
+    pos = lambda lst, t: (lst.index(t) + 1) if t in lst else 0
+    siginpos = [pos(P["gins"], x[1]) for x in sig[0]["ins"]] if sig else list(range(1, len(P["gins"]) + 1))
+    sigoutpos = [pos(P["gouts"], x[1]) for x in sig[0]["outs"]] if sig else list(range(1, len(P["gouts"]) + 1))
     G.append({
-        "ops": ops, "trole": sub["trole"], "gins": sub["gins"], "gouts": sub["gouts"],
+        "ops": ops, "trole": sub["trole"], "gins": sub["gins"], "gouts": sub["gouts"], "siginpos": siginpos, "sigoutpos": sigoutpos,
         "nm": [t["name"] for t in P["tensors"]],
         "shp": [t["shape"] + [-7] + t["sig"] for t in P["tensors"]],
         "data": [in_proj["bufs"][t["buf"]]["sha"] if 0 <= t["buf"] < in_proj["nbuf"] else "oob" for t in P["tensors"]],
